@@ -1,4 +1,4 @@
 SPECIFICATION Spec
 INVARIANT Lemma
-CONSTANTS Bug = FALSE  Rounds = 2500
+CONSTANTS Bug = FALSE  Rounds = 1000
 CHECK_DEADLOCK FALSE
